@@ -2,7 +2,7 @@
 from harness import core, connlib
 
 PROP = "C06"
-LEAN_MODULES = ["MpgsModel.Props.C06"]
+LEAN_MODULES = ["MpgsModel.Props.C06", "MpgsModel.Props.C06Hist"]
 MODEL_MODULES = ["MpgsModel.Model.Conn", "MpgsModel.Model.ToyAead"]
 NS = "Mpgs.Conn."
 THEOREMS = [
@@ -11,8 +11,13 @@ THEOREMS = [
     (NS + "C06_refuse_above_limit", "full"),
     (NS + "C06_fragment_step", "full"),
     (NS + "C06_complete_when_all_present", "full"),
+    (NS + "C06_fragments_history", "full"),
+    (NS + "C06_fresh_inv", "full"),
 ]
 ASSUMPTIONS = [
+    "history level (C06_fragments_history): for every sequence of authentic fragment arrivals - any order, repetition, interleaving of ids, "
+    "arrival times and hence any pattern of context expiry - no exception is raised and every message delivered by reassembly is the "
+    "concatenation of the fragments the peer produced for one of its sends (= the payload passed to send, by C06_build_join)",
     "C06_fragment_step is relative to `sent`: one message per fragment id in the history considered (fewer than 65535 fragmented sends "
     "between two fragments accepted into one context - the 16-bit id space) and fragments that arrive are authentic (C01: only the "
     "peer can produce them)",
